@@ -73,6 +73,13 @@ func Gated(tag string) string {
 
 func Quick(tag string) string { return "q:" + tag }
 
+// GatedBlob completes like Gated and hands its (large) second argument back.
+func GatedBlob(tag string, blob string) string {
+	arrived <- tag
+	<-gate(tag)
+	return blob
+}
+
 // GatedBoom and GatedErr complete like Gated, but with a panic / an error that names the call.
 func GatedBoom(tag string) string {
 	arrived <- tag
@@ -87,8 +94,9 @@ func GatedErr(tag string) (string, error) {
 }
 
 type proxy struct {
-	Gated func(string) (string, error)
-	Quick func(string) (string, error)
+	Gated     func(string) (string, error)
+	Quick     func(string) (string, error)
+	GatedBlob func(string, string) (string, error)
 }
 
 type endpoint struct {
@@ -105,6 +113,7 @@ func newGatedService() *core.Service {
 	s := core.NewService()
 	s.AddFunction(Gated, "gated")
 	s.AddFunction(Quick, "quick")
+	s.AddFunction(GatedBlob, "gatedBlob")
 	return s
 }
 
